@@ -148,6 +148,28 @@ fn step_disconnect(cap: usize, by_drop: bool) {
   kani::cover!(true, "END");
 }
 
+/// the blocking forms, from every state in which they must return without parking (buffer non-empty, or drained and
+/// disconnected): the OLDEST buffered value first, Disconnected only when the buffer is empty.  (The parking path
+/// needs a Thread handle and is not decided.)
+fn step_recv_sync(cap: usize, timed: bool) {
+  let (p, c) = channel::<u8>(cap);
+  let s = any_state(&p, cap);
+  kani::assume(s.n > 0 || s.disc);
+  let r: Result<u8, bool> = if timed {
+    match c.recv_timeout_sync(std::time::Duration::from_millis(5)) { Ok(v) => Ok(v), Err(RecvErrorTimeout::Disconnected) => Err(true), Err(RecvErrorTimeout::Timeout) => Err(false) }
+  } else {
+    match c.recv_sync() { Ok(v) => Ok(v), Err(RecvError::Disconnected) => Err(true) }
+  };
+  let (_v, n2) = view(&p.shared);
+  match r {
+    Ok(y) => { assert!(s.n > 0 && y == s.items[0] && n2 == s.n - 1); kani::cover!(true); }
+    Err(disc) => { assert!(s.n == 0 && s.disc && disc && n2 == 0, "Disconnected / Timeout reported although a value was buffered"); kani::cover!(true); }
+  }
+  std::mem::forget(p); std::mem::forget(c);
+  kani::cover!(true, "END");
+}
+pub(crate) fn stub_instant_now() -> std::time::Instant { unsafe { std::mem::zeroed() } }
+
 // @obligation id=mbox.deliver.cap1n0 props=C08 kind=step tier=quick bound="capacity 1, 0 buffered value(s) (any u8), is_disconnected any, async consumer registered or not, dropped_count any; buffer type = Vec-backed VecDeque stand-in"
 #[kani::proof]
 #[kani::stub(std::thread::current::current, crate::verif_k_stubs::stub_thread_current)]
@@ -299,3 +321,69 @@ fn ob_mbox_disconnect_cap2n2() { unsafe { FILL = 2; } step_disconnect(2, false);
 #[kani::stub(parking_lot::RawMutex::unlock_slow, crate::verif_k_stubs::stub_unlock_slow)]
 #[kani::unwind(6)]
 fn ob_mbox_drop_producer_cap2n2() { unsafe { FILL = 2; } step_disconnect(2, true); }
+
+// @obligation id=mbox.recvn0 props=C08,C04 kind=step tier=quick bound="capacity 2, 0 buffered value(s), flags any, restricted to states in which the call returns without parking; Vec-free array deque stand-in"
+#[kani::proof]
+#[kani::stub(std::thread::current::current, crate::verif_k_stubs::stub_thread_current)]
+#[kani::stub(parking_lot::RawMutex::lock_slow, crate::verif_k_stubs::stub_lock_slow)]
+#[kani::stub(parking_lot::RawMutex::unlock_slow, crate::verif_k_stubs::stub_unlock_slow)]
+#[kani::stub(std::thread::park, crate::verif_k_stubs::stub_park)]
+#[kani::stub(std::thread::park_timeout, crate::verif_k_stubs::stub_park_timeout)]
+#[kani::stub(std::time::Instant::now, stub_instant_now)]
+#[kani::unwind(6)]
+fn ob_mbox_recvn0() { unsafe { FILL = 0; } step_recv_sync(2, false); }
+
+// @obligation id=mbox.recv_timeoutn0 props=C08,C04 kind=step tier=quick bound="capacity 2, 0 buffered value(s), flags any, restricted to states in which the call returns without parking; Vec-free array deque stand-in"
+#[kani::proof]
+#[kani::stub(std::thread::current::current, crate::verif_k_stubs::stub_thread_current)]
+#[kani::stub(parking_lot::RawMutex::lock_slow, crate::verif_k_stubs::stub_lock_slow)]
+#[kani::stub(parking_lot::RawMutex::unlock_slow, crate::verif_k_stubs::stub_unlock_slow)]
+#[kani::stub(std::thread::park, crate::verif_k_stubs::stub_park)]
+#[kani::stub(std::thread::park_timeout, crate::verif_k_stubs::stub_park_timeout)]
+#[kani::stub(std::time::Instant::now, stub_instant_now)]
+#[kani::unwind(6)]
+fn ob_mbox_recv_timeoutn0() { unsafe { FILL = 0; } step_recv_sync(2, true); }
+
+// @obligation id=mbox.recvn1 props=C08,C04 kind=step tier=quick bound="capacity 2, 1 buffered value(s), flags any, restricted to states in which the call returns without parking; Vec-free array deque stand-in"
+#[kani::proof]
+#[kani::stub(std::thread::current::current, crate::verif_k_stubs::stub_thread_current)]
+#[kani::stub(parking_lot::RawMutex::lock_slow, crate::verif_k_stubs::stub_lock_slow)]
+#[kani::stub(parking_lot::RawMutex::unlock_slow, crate::verif_k_stubs::stub_unlock_slow)]
+#[kani::stub(std::thread::park, crate::verif_k_stubs::stub_park)]
+#[kani::stub(std::thread::park_timeout, crate::verif_k_stubs::stub_park_timeout)]
+#[kani::stub(std::time::Instant::now, stub_instant_now)]
+#[kani::unwind(6)]
+fn ob_mbox_recvn1() { unsafe { FILL = 1; } step_recv_sync(2, false); }
+
+// @obligation id=mbox.recv_timeoutn1 props=C08,C04 kind=step tier=quick bound="capacity 2, 1 buffered value(s), flags any, restricted to states in which the call returns without parking; Vec-free array deque stand-in"
+#[kani::proof]
+#[kani::stub(std::thread::current::current, crate::verif_k_stubs::stub_thread_current)]
+#[kani::stub(parking_lot::RawMutex::lock_slow, crate::verif_k_stubs::stub_lock_slow)]
+#[kani::stub(parking_lot::RawMutex::unlock_slow, crate::verif_k_stubs::stub_unlock_slow)]
+#[kani::stub(std::thread::park, crate::verif_k_stubs::stub_park)]
+#[kani::stub(std::thread::park_timeout, crate::verif_k_stubs::stub_park_timeout)]
+#[kani::stub(std::time::Instant::now, stub_instant_now)]
+#[kani::unwind(6)]
+fn ob_mbox_recv_timeoutn1() { unsafe { FILL = 1; } step_recv_sync(2, true); }
+
+// @obligation id=mbox.recvn2 props=C08,C04 kind=step tier=quick bound="capacity 2, 2 buffered value(s), flags any, restricted to states in which the call returns without parking; Vec-free array deque stand-in"
+#[kani::proof]
+#[kani::stub(std::thread::current::current, crate::verif_k_stubs::stub_thread_current)]
+#[kani::stub(parking_lot::RawMutex::lock_slow, crate::verif_k_stubs::stub_lock_slow)]
+#[kani::stub(parking_lot::RawMutex::unlock_slow, crate::verif_k_stubs::stub_unlock_slow)]
+#[kani::stub(std::thread::park, crate::verif_k_stubs::stub_park)]
+#[kani::stub(std::thread::park_timeout, crate::verif_k_stubs::stub_park_timeout)]
+#[kani::stub(std::time::Instant::now, stub_instant_now)]
+#[kani::unwind(6)]
+fn ob_mbox_recvn2() { unsafe { FILL = 2; } step_recv_sync(2, false); }
+
+// @obligation id=mbox.recv_timeoutn2 props=C08,C04 kind=step tier=quick bound="capacity 2, 2 buffered value(s), flags any, restricted to states in which the call returns without parking; Vec-free array deque stand-in"
+#[kani::proof]
+#[kani::stub(std::thread::current::current, crate::verif_k_stubs::stub_thread_current)]
+#[kani::stub(parking_lot::RawMutex::lock_slow, crate::verif_k_stubs::stub_lock_slow)]
+#[kani::stub(parking_lot::RawMutex::unlock_slow, crate::verif_k_stubs::stub_unlock_slow)]
+#[kani::stub(std::thread::park, crate::verif_k_stubs::stub_park)]
+#[kani::stub(std::thread::park_timeout, crate::verif_k_stubs::stub_park_timeout)]
+#[kani::stub(std::time::Instant::now, stub_instant_now)]
+#[kani::unwind(6)]
+fn ob_mbox_recv_timeoutn2() { unsafe { FILL = 2; } step_recv_sync(2, true); }
